@@ -223,7 +223,8 @@ def gen_structured_mol2(rng, en, ml, max_atoms: int):
         na, nb = len(atoms), len(bonds)
         lines.append(rng.choice(["@<TRIPOS>MOLECULE", "@<TRIPOS>MOLECULE", "  @<TRIPOS>MOLECULE  "]))
         lines.append(spec["name"])
-        lines.append(rng.choice([f"{na} {nb}", f"{na} {nb} 0 0 0", f" {na}   {nb} 1", f"{na} {nb} 0 0 0 0 0"]))
+        lines.append(rng.weighted([(f"{na} {nb}", 4), (f"{na} {nb} 0 0 0", 4), (f" {na}   {nb} 1", 3), (f"{na} {nb} 0 0", 2),
+                                   (f"{na} {nb} 0 0 0 0 0", 2), (f"{na}", 1)]))
         lines.append(rng.choice(["SMALL", "BIOPOLYMER"]))
         lines.append(rng.choice(["USER_CHARGES", "GASTEIGER", "USER_CHARGES", "NO_CHARGES"]))
         st = rng.below(5)
@@ -272,7 +273,8 @@ def run(ctx):
                 "molli), STRUCTURED mol2 texts with a varied block layout (unsupported @<TRIPOS> blocks with content at "
                 "every position, blank/comment lines, header variants, BOND before ATOM, UNITY attributes), multi-frame "
                 "xyz texts, plus the bundled .mol2/.xyz files; damage: EVERY line-boundary truncation, EVERY byte offset "
-                "of the last record, EVERY single-line duplication and deletion, plus seeded swaps / token "
+                "of the last record and of the whole last BOND record, EVERY single-line duplication and deletion; "
+                "count lines with 1, 2, 3, 4, 5 numbers; plus seeded swaps / token "
                 "corruptions. A case = one damaged text through the real reader (5 s limit), the model "
                 "reader and the oracle. Non-trivial: the damaged text differs from the base text and still contains "
                 "at least one complete header; distinct by text hash.")
@@ -356,11 +358,24 @@ def run(ctx):
                 # a cut strictly inside a token of the final line is accepted only when that line is an ATOM record
                 # (foreign layout: ATOM section last) whose shortened type / charge token is still valid — the mol2
                 # twin of D22; a bond line's type token has no acceptable proper prefix (theorem)
+                if cut is not None and not in_last_token and 0 < cut < len(base_text) and \
+                        not base_text[cut - 1].isspace() and not base_text[cut].isspace():
+                    # the same for ANY byte cut: decided on the truncated text itself — its final line is an ATOM record
+                    # (by the independent role scan) and the cut fell inside one of that line's tokens
+                    _, troles = mol2_line_roles(text)
+                    in_last_token = bool(troles) and troles[-1] == "atom"
                 k = "C10:mol2-cut-inside-last-atom-record" if in_last_token else "C10:truncated-mol2-partial"
                 # a cut exactly in front of an OPTIONAL trailing attribute section (UNITY_ATOM_ATTR / UNITY_BOND_ATTR
                 # after the last record section) leaves a text that is indistinguishable from a file that never had the
                 # section: the molecule comes back complete in atoms and bonds, without those attributes (inherent)
-                nxt = base_text[cut:].split("\n", 1)[0].strip() if kind == "cut-line" and cut is not None else ""
+                # (the cut may also fall just before the newline that ends the last record line, or inside the tag line
+                #  of the optional section itself: a shortened tag is an unsupported, skipped section)
+                nxt = ""
+                if cut is not None:
+                    c0 = cut + 1 if base_text[cut:cut + 1] == "\n" else cut
+                    ls = base_text.rfind("\n", 0, c0) + 1
+                    le = base_text.find("\n", ls)
+                    nxt = base_text[ls: le if le >= 0 else len(base_text)].strip()
                 if (nxt.startswith("@<TRIPOS>UNITY_ATOM_ATTR") or nxt.startswith("@<TRIPOS>UNITY_BOND_ATTR")) and \
                         len(impl) <= len(base_mols) and tl.mols_equal(impl, base_mols[: len(impl)], extras=False):
                     k = "C10:mol2-cut-before-attribute-section"
@@ -417,6 +432,28 @@ def run(ctx):
     for i in range(10 if quick else 120):
         mol2_bases.append((f"struct{i}", gen_structured_mol2(rng, en, ml, 4 if quick else 10)))
         ctx.count("mol2:structured_base_texts")
+    # every form of the record-count line the reader's grammar distinguishes: 1, 2, 3, 4, 5 numbers (one number = atom
+    # count only: no bond count is declared, a BOND record is rejected), on one- and two-molecule texts with >= 2 bonds
+    for i in range(2 if quick else 12):
+        cspecs = []
+        while len(cspecs) < 2:
+            sp = tl.gen_mol_spec(rng, en, 5, specials=False, name="cnt")
+            if len(sp["bonds"]) >= 2:
+                cspecs.append(sp)
+        wr = [tl.build_molecule(en, sp, ml.Molecule).dumps_mol2() for sp in cspecs]
+        for nnum in (1, 2, 3, 4, 5):
+            for which in ((0,), (0, 1), (1,)):         # which molecule(s) carry the short count line
+                parts = []
+                for mi, (sp, w) in enumerate(zip(cspecs, wr)):
+                    na, nb = len(sp["atoms"]), len(sp["bonds"])
+                    full = f"{na} {nb} 0 0 0"
+                    short = " ".join([str(na), str(nb), "0", "0", "0"][:nnum])
+                    parts.append(w.replace("\n" + full + "\n", "\n" + (short if mi in which else full) + "\n", 1))
+                if which == (0,):
+                    mol2_bases.append((f"counts{nnum}-single{i}", parts[0]))
+                else:
+                    mol2_bases.append((f"counts{nnum}-two{i}-{'both' if len(which) == 2 else 'second'}", parts[0] + parts[1]))
+                ctx.count(f"mol2:count_line_numbers={nnum}")
     from harness import c08
     for i in range(n_gen):
         k = rng.weighted([(1, 1), (2, 3), (3, 2)])
@@ -449,6 +486,12 @@ def run(ctx):
         for c in range(a, b + 1):
             inside_tok = last_is_atom and a < c < b and not text[c - 1].isspace() and not text[c].isspace()
             case_mol2(name, text, base, "cut-byte", text[:c], cut=c, in_last_token=inside_tok)
+        # every byte of the last BOND record (tag line and all bond lines), for the small generated texts
+        if len(text) < 4000 and not name.endswith(".mol2"):
+            pos = text.rfind("@<TRIPOS>BOND")
+            if pos >= 0:
+                for c in range(pos, a):
+                    case_mol2(name, text, base, "cut-byte-bond-record", text[:c], cut=c)
         lines, roles = mol2_line_roles(text)
         idx = list(range(len(lines) - 1 if lines and lines[-1] == "" else len(lines)))
         if len(idx) > 150:
